@@ -1,10 +1,385 @@
 import JP.Driver
 import JP.Impl.Den
+import JP.World.Pool
+import JP.World.Conc
+import JP.Lemmas.WorldObservers
+import JP.Lemmas.WorldInterleave
 
-/-! # Property C09 — theorems (see DESIGN.md §6) -/
+/-!
+# Property C09 — calls are pure: history does not matter (see DESIGN.md §6 and §H)
+
+The pure functions `Impl.*` are trivially history independent.  What is proved here is about
+the model of the SHARED MUTABLE STATE of the Go code (`JP/World/Pool.lean`): every exported API
+is a program over the three `sync.Pool`s whose acquisitions return objects with ARBITRARY
+leftovers, and
+
+* `history_independent_*`: whatever the leftovers (subject to the pool invariant), the program
+  returns the result of the pure function; so any two histories give the same result;
+* `pool_invariant`: the two fields the code relies on WITHOUT re-initialising them
+  (`decodeState.disallowUnknownFields = false`, `encodeState.ptrSeen` empty) hold for fresh objects and
+  for everything any entry point or any call puts back, also on failing and panicking calls;
+* `stale_keys_*`: `lastKeys` really is stale after decoding a non-object (`UnmarshalValidWithKeys`
+  returns the previous user's keys, `partialDoc.UnmarshalJSON` stores them), and every method that
+  mentions `keys` tests `obj == nil` first, so that the stale list is never looked at;
+* `call_sequence`: any finite sequence of calls, from any pools, under any pool behaviour,
+  returns call by call what each call returns alone.
+
+ASSUMED Go-level facts: S1–S4, E1–E5, D1–D7, L1–L4 in the header of `JP/World/Pool.lean` (each
+phrased for a syntactic check on the Go source).  NOT covered: that the Go code's real memory
+accesses are those of the model; writes to caller memory (inexpressible in a functional model);
+the Go memory model.
+-/
 
 namespace JP
 namespace C09
+
+open World Impl
+
+/-! ## the reset lemmas of the three pooled objects -/
+
+/-- the scanner reset lemma: a scanner in ANY state behaves as a new one after `reset()` -/
+theorem scan_reset (left : Scanner.Scan) (bs : Bytes) :
+    Scanner.run (resetScan left) bs = Scanner.run Scanner.Scan.init bs := by
+  rw [resetScan_eq]
+
+/-- `Valid`, `compact`, `Indent` on any pooled scanner -/
+theorem history_independent_scanner (l₁ l₂ : ScanState) (esc : Bool) (ind data : Bytes) :
+    (validW l₁ data).1 = (validW l₂ data).1 ∧ (validW l₁ data).1 = Scanner.valid data ∧
+    (compactW l₁ esc data).1 = (compactW l₂ esc data).1 ∧ (compactW l₁ esc data).1 = Scanner.compact esc data ∧
+    (indentW l₁ ind data).1 = (indentW l₂ ind data).1 ∧ (indentW l₁ ind data).1 = Scanner.indent ind data := by
+  simp [validW_fst, compactW_fst, indentW_fst]
+
+/-- `Marshal`/`MarshalEscaped` on any pooled encoder state with an empty `ptrSeen`: the dirty
+buffer, `scratch` and `ptrLevel` do not show -/
+theorem history_independent_marshal (l₁ l₂ : EncState) (h₁ : l₁.Inv) (h₂ : l₂.Inv) (hv₁ hv₂ : EncHavoc)
+    (out : Outcome Bytes) :
+    (marshalEscapedW l₁ hv₁ out).1 = (marshalEscapedW l₂ hv₂ out).1 ∧ (marshalEscapedW l₁ hv₁ out).1 = out := by
+  obtain ⟨e₁, he₁, _⟩ := marshalEscapedW_inv l₁ hv₁ out h₁
+  obtain ⟨e₂, he₂, _⟩ := marshalEscapedW_inv l₂ hv₂ out h₂
+  simp [he₁, he₂]
+
+/-- `UnmarshalValid` and `Unmarshal` on any pooled decoder state with `disallowUnknownFields` clear:
+stale `data`, `off`, `opcode`, scanner, `errorContext`, `savedError`, `useNumber`, `lastKeys` do not show
+(for every decode target, including structs, which the library does not use) -/
+theorem history_independent_unmarshal (l₁ l₂ : DecState) (h₁ : l₁.Inv) (h₂ : l₂.Inv) (data : Bytes) (tgt : Target) :
+    (unmarshalValid l₁ data tgt).1 = (unmarshalValid l₂ data tgt).1 ∧
+    (unmarshalValid l₁ data tgt).1 = decodePure data tgt false false ∧
+    (World.unmarshal l₁ data tgt).1 = (World.unmarshal l₂ data tgt).1 := by
+  refine ⟨unmarshalValid_indep l₁ l₂ h₁ h₂ data tgt, ?_, ?_⟩
+  · rw [unmarshalValid_fst, h₁]
+  · rw [unmarshal_fst, unmarshal_fst, h₁, h₂]
+
+/-- for the targets the library uses (no struct) not even the invariant is needed -/
+theorem history_independent_unmarshal_library (l₁ l₂ : DecState) (data : Bytes) (tgt : Target)
+    (hs : ∀ fs, tgt ≠ .strct fs) :
+    (unmarshalValid l₁ data tgt).1 = (unmarshalValid l₂ data tgt).1 := by
+  rw [unmarshalValid_fst, unmarshalValid_fst]
+  unfold decodePure
+  cases parseCst data with
+  | none => rfl
+  | some c =>
+    cases tgt with
+    | strct fs => exact absurd rfl (hs fs)
+    | _ => rfl
+
+/-! ## stale keys -/
+
+/-- `UnmarshalValidWithKeys` on a text that is not an object returns the PREVIOUS user's keys:
+the leftover is observable at the `json` level -/
+theorem stale_keys_returned (left : DecState) (data : Bytes) (c : Cst) (hp : parseCst data = some c)
+    (hn : c.isNullLit = true) :
+    (unmarshalValidWithKeys left data).2.1 = left.lastKeys ∧
+    (partialDocUnmarshal left data).1 = .ok { keys := left.lastKeys, obj := none } := by
+  have h2 : (partialDocUnmarshal left data).1 = .ok { keys := left.lastKeys, obj := none } := by
+    rw [partialDocUnmarshal_fst]
+    unfold pdocPure
+    rw [hp]
+    cases c with
+    | lit s => simp [hn]
+    | obj ms => simp [Cst.isNullLit] at hn
+    | str b => simp [Cst.isNullLit] at hn
+    | arr xs => simp [Cst.isNullLit] at hn
+  refine ⟨?_, h2⟩
+  have h1 := unmarshalValid_fst left data .mapLazy
+  have hk := unmarshalValid_lastKeys left data .mapLazy c hp
+  unfold unmarshalValidWithKeys
+  cases hu : unmarshalValid left data .mapLazy with
+  | mk r d =>
+    rw [hu] at h1 hk
+    simp only at h1 hk
+    simp only [decodePure, hp, Target.accepts, isObjOrNull, hn, Bool.or_true, Bool.not_true,
+      Bool.false_eq_true, if_false] at h1
+    subst h1
+    cases c with
+    | lit s => simpa [Target.keysAfter] using hk
+    | obj ms => simp [Cst.isNullLit] at hn
+    | str b => simp [Cst.isNullLit] at hn
+    | arr xs => simp [Cst.isNullLit] at hn
+
+/-- on an object text the keys are this decode's own, whatever the leftover -/
+theorem fresh_keys_on_object (left : DecState) (data : Bytes) (ms : List (Bytes × Cst))
+    (hp : parseCst data = some (.obj ms)) :
+    (partialDocUnmarshal left data).1 = .ok { keys := decodeKeys ms, obj := some (decodeMembers ms []) } := by
+  rw [partialDocUnmarshal_fst]
+  unfold pdocPure
+  rw [hp]
+
+/-- seen through the pure model (`Node.docNil` has no keys) the root container is the same for
+all leftovers: this connects the havoc version to `Impl.decodeRoot` -/
+theorem stale_keys_erased (l₁ l₂ : DecState) (data : Bytes) :
+    mapOutcome PDoc.toNode (partialDocUnmarshal l₁ data).1 = mapOutcome PDoc.toNode (partialDocUnmarshal l₂ data).1 ∧
+    (∀ c, parseCst data = some c → c.isArr = false →
+      mapOutcome PDoc.toNode (partialDocUnmarshal l₁ data).1 = decodeRoot c) := by
+  have key : ∀ s₁ s₂, mapOutcome PDoc.toNode (pdocPure s₁ data) = mapOutcome PDoc.toNode (pdocPure s₂ data) := by
+    intro s₁ s₂
+    unfold pdocPure
+    cases parseCst data with
+    | none => rfl
+    | some c =>
+      cases c with
+      | lit s => by_cases hn : (Cst.lit s).isNullLit = true <;> simp [hn, mapOutcome, PDoc.toNode]
+      | _ => rfl
+  refine ⟨by rw [partialDocUnmarshal_fst, partialDocUnmarshal_fst]; exact key _ _, fun c hp hc => ?_⟩
+  rw [partialDocUnmarshal_fst]
+  exact pdocPure_toNode _ data c hp hc
+
+/-- every method of `partialDoc` that mentions `keys` (`TrustMarshalJSON`, `set`/`add`, `remove`; `get`
+for completeness), transcribed with its `obj == nil` guard, is the pure model's container method on
+the node WITHOUT the stale keys -/
+theorem stale_keys_never_read (p : PDoc) (esc : Bool) (o : Opts) (self : Node) (cr : Bool) (key : Bytes) (val : Node) :
+    marshalRoot esc { con := p.toNode, self := self, selfCR := cr } = mapOutcome Cst.print (p.trustMarshal esc) ∧
+    mapOutcome PDoc.toNode (p.set key val) = conSet o p.toNode key val ∧
+    mapOutcome PDoc.toNode (p.set key val) = conAdd o p.toNode key val ∧
+    mapOutcome PDoc.toNode (p.remove o key) = conRemove o p.toNode key ∧
+    p.get self key = conGet o self p.toNode key :=
+  ⟨PDoc.marshalRoot_eq esc p self cr, PDoc.set_eq o p key val, PDoc.add_eq o p key val, PDoc.remove_eq o p key,
+   PDoc.get_eq o self p key⟩
+
+/-- two nil-map documents that differ in their stale keys only are indistinguishable, also for the
+guards of `doMergePatch` -/
+theorem stale_keys_unobservable (ks₁ ks₂ : List Bytes) (esc : Bool) (o : Opts) (self : Node) (key : Bytes)
+    (val : Node) (patchData : Bytes) (q : PDoc) :
+    (PDoc.mk ks₁ none).trustMarshal esc = (PDoc.mk ks₂ none).trustMarshal esc ∧
+    (PDoc.mk ks₁ none).set key val = (PDoc.mk ks₂ none).set key val ∧
+    (PDoc.mk ks₁ none).remove o key = (PDoc.mk ks₂ none).remove o key ∧
+    (PDoc.mk ks₁ none).get self key = (PDoc.mk ks₂ none).get self key ∧
+    mergeGuard patchData (PDoc.mk ks₁ none) q = mergeGuard patchData (PDoc.mk ks₂ none) q ∧
+    mergeGuard patchData q (PDoc.mk ks₁ none) = mergeGuard patchData q (PDoc.mk ks₂ none) := by
+  refine ⟨rfl, rfl, rfl, rfl, rfl, ?_⟩
+  obtain ⟨k, ob⟩ := q
+  cases ob <;> rfl
+
+/-! ## history independence of the exported API -/
+
+/-- whatever leftovers the pooled states carry, each call returns its pure result -/
+theorem history_independent (c : Call) (L₁ L₂ : Leftovers) (h₁ : L₁.Inv) (h₂ : L₂.Inv) :
+    c.prog.run L₁ = c.prog.run L₂ ∧ c.prog.run L₁ = c.pure := by
+  have e₁ := (Call.prog_sat c).run L₁ h₁
+  have e₂ := (Call.prog_sat c).run L₂ h₂
+  exact ⟨e₁.trans e₂.symm, e₁⟩
+
+theorem history_independent_apply (L₁ L₂ : Leftovers) (h₁ : L₁.Inv) (h₂ : L₂.Inv) (hv₁ hv₂ : Havoc)
+    (o : Opts) (indent doc : Bytes) (ops : List Op) :
+    (applyP hv₁ o indent doc ops).run L₁ = (applyP hv₂ o indent doc ops).run L₂ ∧
+    (applyP hv₁ o indent doc ops).run L₁ = applyBytes o indent doc ops := by
+  have e₁ := (applyP_sat hv₁ o indent doc ops).run L₁ h₁
+  have e₂ := (applyP_sat hv₂ o indent doc ops).run L₂ h₂
+  exact ⟨e₁.trans e₂.symm, e₁⟩
+
+theorem history_independent_decodePatch (L₁ L₂ : Leftovers) (h₁ : L₁.Inv) (h₂ : L₂.Inv) (hv₁ hv₂ : Havoc) (bs : Bytes) :
+    (decodePatchP hv₁ bs).run L₁ = (decodePatchP hv₂ bs).run L₂ ∧ (decodePatchP hv₁ bs).run L₁ = decodePatch bs := by
+  have e₁ := (decodePatchP_sat hv₁ bs).run L₁ h₁
+  have e₂ := (decodePatchP_sat hv₂ bs).run L₂ h₂
+  exact ⟨e₁.trans e₂.symm, e₁⟩
+
+theorem history_independent_equal (L₁ L₂ : Leftovers) (h₁ : L₁.Inv) (h₂ : L₂.Inv) (hv₁ hv₂ : Havoc) (a b : Bytes) :
+    (equalP hv₁ a b).run L₁ = (equalP hv₂ a b).run L₂ ∧ (equalP hv₁ a b).run L₁ = equal a b := by
+  have e₁ := (equalP_sat hv₁ a b).run L₁ h₁
+  have e₂ := (equalP_sat hv₂ a b).run L₂ h₂
+  exact ⟨e₁.trans e₂.symm, e₁⟩
+
+theorem history_independent_mergePatch (L₁ L₂ : Leftovers) (h₁ : L₁.Inv) (h₂ : L₂.Inv) (hv₁ hv₂ : Havoc)
+    (doc patch : Bytes) :
+    (doMergePatchP hv₁ false doc patch).run L₁ = (doMergePatchP hv₂ false doc patch).run L₂ ∧
+    (doMergePatchP hv₁ false doc patch).run L₁ = mergePatch doc patch := by
+  have e₁ := (doMergePatchP_sat hv₁ false doc patch).run L₁ h₁
+  have e₂ := (doMergePatchP_sat hv₂ false doc patch).run L₂ h₂
+  exact ⟨e₁.trans e₂.symm, e₁⟩
+
+theorem history_independent_mergeMergePatches (L₁ L₂ : Leftovers) (h₁ : L₁.Inv) (h₂ : L₂.Inv) (hv₁ hv₂ : Havoc)
+    (p1 p2 : Bytes) :
+    (doMergePatchP hv₁ true p1 p2).run L₁ = (doMergePatchP hv₂ true p1 p2).run L₂ ∧
+    (doMergePatchP hv₁ true p1 p2).run L₁ = mergeMergePatches p1 p2 := by
+  have e₁ := (doMergePatchP_sat hv₁ true p1 p2).run L₁ h₁
+  have e₂ := (doMergePatchP_sat hv₂ true p1 p2).run L₂ h₂
+  exact ⟨e₁.trans e₂.symm, e₁⟩
+
+theorem history_independent_createMergePatch (L₁ L₂ : Leftovers) (h₁ : L₁.Inv) (h₂ : L₂.Inv) (hv₁ hv₂ : Havoc)
+    (a b : Bytes) :
+    (createMergePatchP hv₁ a b).run L₁ = (createMergePatchP hv₂ a b).run L₂ ∧
+    (createMergePatchP hv₁ a b).run L₁ = createMergePatch a b := by
+  have e₁ := (createMergePatchP_sat hv₁ a b).run L₁ h₁
+  have e₂ := (createMergePatchP_sat hv₂ a b).run L₂ h₂
+  exact ⟨e₁.trans e₂.symm, e₁⟩
+
+/-! ## the pool invariant -/
+
+/-- the fields the code relies on without resetting them are clean in everything ever released:
+initially (fresh objects), after every `json` entry point (also when it fails: `out` ranges over
+errors and panics, `data` over malformed texts), and in every reachable state of any system of
+threads running any calls from pools that satisfy it -/
+theorem pool_invariant :
+    DecState.zero.Inv ∧ EncState.zero.Inv ∧
+    (∀ (left : DecState) (data : Bytes) (tgt : Target), left.Inv → (unmarshalValid left data tgt).2.Inv) ∧
+    (∀ (left : DecState) (data : Bytes) (tgt : Target), left.Inv → (World.unmarshal left data tgt).2.Inv) ∧
+    (∀ (left : DecState) (data : Bytes), left.Inv → (unmarshalValidWithKeys left data).2.2.Inv) ∧
+    (∀ (left : DecState) (data : Bytes), left.Inv → (partialDocUnmarshal left data).2.Inv) ∧
+    (∀ (left : EncState) (h : EncHavoc) (out : Outcome Bytes) (e' : EncState), left.Inv →
+      (marshalEscapedW left h out).2 = some e' → e'.Inv) ∧
+    (∀ (scripts : List (List Call)) (P : Pools) (S' : Sys (List Res)), P.Inv →
+      Steps ⟨P, scripts.map seqP⟩ S' → S'.pools.Inv) := by
+  refine ⟨rfl, rfl, unmarshalValid_release_inv, unmarshal_release_inv, unmarshalValidWithKeys_release_inv,
+    partialDocUnmarshal_release_inv, fun left h out e' hl he => marshalEscapedW_release_inv left h out hl e' he, ?_⟩
+  intro scripts P S' hP hs
+  exact (hs.preserves (Qs := scripts.map fun cs => fun rs => rs = cs.map Call.pure)
+    ⟨hP, forall2_map_sat scripts⟩).pools
+
+/-! ## sequences of calls -/
+
+/-- any finite sequence of calls (failing and malformed ones included), started from ARBITRARY
+pools satisfying the invariant, with the pools free to hand out any object, a fresh one, or to
+drop objects: the results are, call by call, the pure results, which are also what each call
+returns alone in a fresh process; and the pools satisfy the invariant afterwards -/
+theorem call_sequence (calls : List Call) (P : Pools) (hP : P.Inv) (S' : Sys (List Res)) (rs : List Res)
+    (h : Steps ⟨P, [seqP calls]⟩ S') (hr : S'.threads[0]? = some (.ret rs)) :
+    rs = calls.map Call.pure ∧ rs = calls.map (fun c => c.prog.run Leftovers.fresh) ∧ S'.pools.Inv := by
+  have hI : SysInv ⟨P, [seqP calls]⟩ [fun rs => rs = calls.map Call.pure] :=
+    ⟨hP, .cons ⟨0, 0, 0, seqP_sat calls⟩ .nil⟩
+  have hI' := h.preserves hI
+  obtain ⟨Q, hQ, hq⟩ := hI'.result hr
+  simp at hQ
+  subst hQ
+  refine ⟨hq, ?_, hI'.pools⟩
+  rw [hq]
+  apply List.map_congr_left
+  intro c _
+  exact ((Call.prog_sat c).run Leftovers.fresh Leftovers.fresh_inv).symm
+
+/-- the same with the leftovers given by an oracle: repeating or reordering calls changes nothing,
+because the `n`-th result is `Call.pure` of the `n`-th call -/
+theorem call_sequence_oracle (calls : List Call) (L : Leftovers) (hL : L.Inv) :
+    (seqP calls).run L = calls.map Call.pure :=
+  (seqP_sat calls).run L hL
+
+/-! ## non-vacuity -/
+
+/-- a `decodeState` as a failed struct decode of `{"stale":1} trailing` could leave it -/
+def staleDec : DecState :=
+  { data := ascii "{\"stale\":1} trailing", off := 7, opcode := 4,
+    scan := { scan := { st := .stateInString, stack := [2, 0, 1], endTop := true, err := true }, bytes := 99 },
+    errorContext := some { struct := true, fieldStack := [ascii "stale", ascii "field"] },
+    savedError := true, useNumber := false, disallowUnknownFields := false,
+    lastKeys := [ascii "stale1", ascii "stale2", ascii "stale1"] }
+
+def staleEnc : EncState :=
+  { buf := ascii "{\"stale\":\"buffer\"}", scratch := [1, 2, 3], ptrLevel := 1500, ptrSeen := [] }
+
+def staleScan : ScanState :=
+  { scan := { st := .stateNul, stack := [0, 1, 2, 2, 1], endTop := true, err := true }, bytes := 777 }
+
+/-- every acquisition meets a dirty object -/
+def staleWorld : Leftovers := { dec := fun _ => staleDec, enc := fun _ => staleEnc, scan := fun _ => staleScan }
+
+theorem staleWorld_inv : staleWorld.Inv := ⟨fun _ => rfl, fun _ => rfl⟩
+
+/-- observable part of an outcome, with decidable equality -/
+def code (r : Outcome Bytes) : Nat × Bytes :=
+  match r with
+  | .ok b => (0, b)
+  | .err e => (1, [UInt8.ofNat e.ctorIdx])
+  | .panic => (2, [])
+
+def okWithKeys (r : Outcome PDoc) (ks : List Bytes) : Bool :=
+  match r with
+  | .ok p => p.keys == ks && p.obj.isNone
+  | _ => false
+
+def decOk (r : DecOut) : Bool := match r with | .ok _ _ => true | _ => false
+
+/-- the hypotheses of `scan_reset` hold for a dirty scanner that, unreset, behaves differently -/
+example : (Scanner.run staleScan.scan (ascii "1")).isSome = false ∧
+    (Scanner.run (resetScan staleScan.scan) (ascii "1")).isSome = true := by
+  decide
+
+/-- decoding the text `null` with the dirty state yields the stale keys … -/
+example : (unmarshalValidWithKeys staleDec (ascii "null")).2.1 = [ascii "stale1", ascii "stale2", ascii "stale1"] := by
+  decide
+
+/-- … which a fresh state does not … -/
+example : (unmarshalValidWithKeys DecState.zero (ascii "null")).2.1 = [] := by decide
+
+/-- … they end up in the root `partialDoc` … -/
+example : okWithKeys (partialDocUnmarshal staleDec (ascii "null")).1
+    [ascii "stale1", ascii "stale2", ascii "stale1"] = true := by
+  decide
+
+/-- … yet `Apply` on the document `null` returns the same error as the pure model and as a
+fresh process -/
+theorem stale_null_example :
+    code ((applyP {} {} [] (ascii "null") []).run staleWorld) = code (.err .expectedObject) ∧
+    code (applyBytes {} [] (ascii "null") []) = code (.err .expectedObject) ∧
+    code ((applyP {} {} [] (ascii "null") []).run Leftovers.fresh) = code (.err .expectedObject) := by
+  decide +kernel
+
+/-- a successful call in the dirty world: the stale buffer, scanner stacks, saved error do not show -/
+theorem stale_ok_example :
+    code ((applyP {} {} [] (ascii "{\"a\": 1}") []).run staleWorld) = code (.ok (ascii "{\"a\":1}")) := by
+  decide +kernel
+
+/-- the invariants are NEEDED: an encoder state with a non-empty `ptrSeen` makes `Marshal` panic
+(`newEncodeState`), and `disallowUnknownFields` changes the outcome of a struct decode -/
+example : code (marshalEscapedW { staleEnc with ptrSeen := [7] } {} (.ok (ascii "1"))).1 = (2, []) ∧
+    code (marshalEscapedW staleEnc {} (.ok (ascii "1"))).1 = (0, ascii "1") := by
+  decide
+
+example : decOk (unmarshalValid { staleDec with disallowUnknownFields := true } (ascii "{\"x\":1}") (.strct [ascii "a"])).1 = false ∧
+    decOk (unmarshalValid staleDec (ascii "{\"x\":1}") (.strct [ascii "a"])).1 = true := by
+  decide +kernel
+
+/-- `useNumber` is set by every entry point: the stale `false` does not reach `CreateMergePatch` -/
+example : (createMergePatchP {} (ascii "{\"a\":1.0}") (ascii "{\"a\":1.00}")).run staleWorld
+    = createMergePatch (ascii "{\"a\":1.0}") (ascii "{\"a\":1.00}") :=
+  (history_independent_createMergePatch staleWorld staleWorld staleWorld_inv staleWorld_inv {} {} _ _).2
+
+/-- `call_sequence`: a concrete history on poisoned pools (most recently put object first) -/
+def poisoned : Pools := { dec := [staleDec, staleDec], enc := [staleEnc], scan := [staleScan, staleScan] }
+
+theorem poisoned_inv : poisoned.Inv :=
+  ⟨fun d hd => by simp [poisoned] at hd; subst hd; rfl, fun e he => by simp [poisoned] at he; subst he; rfl⟩
+
+def _root_.JP.World.Res.code : Res → Nat × Bytes
+  | .bytes (.ok b) => (0, b)
+  | .bytes (.err _) => (1, [])
+  | .bytes .panic => (2, [])
+  | .ops (.ok ops) => (3, [UInt8.ofNat ops.length])
+  | .ops _ => (4, [])
+  | .bool b => (5, if b then [1] else [0])
+
+def history : List Call :=
+  [.apply {} {} [] (ascii "null") [], .equal {} (ascii "[1") (ascii "[1]"),
+   .apply {} {} [] (ascii "{\"a\":1}") [], .apply {} {} [] (ascii "null") []]
+
+theorem history_example :
+    (resultOf (runSchedule ⟨poisoned, [seqP history]⟩ (List.replicate 60 0)) 0).map (·.map Res.code)
+      = some (history.map fun c => c.pure.code) := by
+  decide +kernel
+
+-- #print axioms scan_reset                         -- none
+-- #print axioms history_independent                -- propext, Classical.choice, Quot.sound
+-- #print axioms pool_invariant
+-- #print axioms call_sequence
+-- #print axioms stale_keys_never_read
+-- #print axioms history_example
 
 end C09
 end JP
